@@ -84,11 +84,17 @@ class Host:
             k += w
         if kind == "repeat2" and len(widths) >= 2 and widths[0] == widths[1]:
             self.operands[1] = list(self.operands[0])  # the same gates as both operands
+        self._total = total
+        self.refresh()
+
+    def refresh(self, edited=False):
+        """(Re)take the snapshot the generator's effect is measured against."""
         self.before_net = circ.netlist_of(self.c)
         self.before_inputs = list(self.c.inputs)
         self.before_outputs = list(self.c.outputs)
         self.before_src = circ.circ_src(self.c)
-        self.before_desc = circ.describe(self.c) if kind != "fresh" else f"bare circuit with {total} inputs"
+        bare = self.kind == "fresh" and len(self.c.gates) == self._total
+        self.before_desc = f"bare circuit with {self._total} inputs" if bare else circ.describe(self.c)
 
     # ------------------------------------------------------------------
     def cut_assignment(self):
